@@ -236,8 +236,11 @@ def gen_cases(rng, n):
         specs = [rnd_spec(rng) for _ in range(depth)]
         if mode < 0.25:     # plain + logger only
             specs = [s if s[0] in ("plain", "logger") else ["plain"] for s in specs]
-        yield {"specs": specs, "pool": [fr(rnd_q(rng)), fr(rnd_q(rng)), fr(rnd_fit(rng)), fr(rnd_fit(rng))],
-               "ops": rnd_ops(rng)}
+        case = {"specs": specs, "pool": [fr(rnd_q(rng)), fr(rnd_q(rng)), fr(rnd_fit(rng)), fr(rnd_fit(rng))],
+                "ops": rnd_ops(rng)}
+        if rng.random() < 0.3:
+            case["rename"] = True
+        yield case
 
 
 # ------------------------------------------------------------------ implementation
@@ -434,7 +437,14 @@ def run_impl(case):
                         kw["name"] = _lname(spec[1])
                     if spec[3]["kind"] != "default":
                         kw["message"] = spec[3]["text"]
-                    top = Logger(top, **kw)
+                    if case.get("rename"):
+                        # configured under a provisional name first, given its real name afterwards (the public `name`
+                        # attribute is settable): the same as having been constructed with it
+                        final = kw.pop("name", None)
+                        top = Logger(top, name="c16.provisional.%d" % lvl, **kw)
+                        top.name = final
+                    else:
+                        top = Logger(top, **kw)
                     names.add(top.name)
                 else:
                     opaque_levels.append(lvl)
